@@ -303,7 +303,7 @@ def shard_export(sh, part):
             exported = {str(k): v for k, v in res[7].items()}
         else:
             # task level: combination_estimation_counts.json (the task uses the functions of the reloaded module through its globals)
-            tr.Pool = lambda n: pool
+            tr.Pool = lambda *a_, **k_: pool
             tr.estimate_importances_minibatches = cr.estimate_importances_minibatches
             ok, _ = sh.call('exported-counts=selections', 'outrank_task_conduct_ranking', tr.outrank_task_conduct_ranking, args)
             if not ok:
